@@ -11,7 +11,7 @@ import tempfile
 
 from ..core.shrink import ddmin_list
 from ..core.util import fingerprint, run_rng, weighted
-from . import build, qgen
+from . import build, qgen, qgen2
 
 NAME = "job"
 ISOLATE = False  # execute() isolates itself: it needs a pristine parent for the history-free rebuild
@@ -140,7 +140,8 @@ def gen_schedules(rng, n, faulting=()):
 def make_case(prop, tier, seed, i):
     rng = run_rng(NAME, seed, i)  # the same queries for C05 and C06: one compile pool, two oracles
     backend = BACKENDS[i % 3] if rng.random() < 0.8 else rng.choice(BACKENDS)
-    q = qgen.generate(rng, backend)
+    # two generators: hand-picked idioms with a bias (qgen) and a fully compositional grammar (qgen2)
+    q = qgen2.generate(rng, backend) if rng.random() < 0.45 else qgen.generate(rng, backend)
     n_sched = 12 if tier == "quick" else 40
     case = {"engine": NAME, "prop": prop, "seed": seed, "run": i, "backend": backend, "query": q,
             "event_seed": rng.randrange(1 << 30)}
